@@ -8,6 +8,42 @@ VERIF = os.path.dirname(os.path.dirname(os.path.abspath(__file__)))
 SEEDED = os.path.join(VERIF, 'seeded')
 
 NEEDS = {
+    'C01-r3m1': 'latitude exactly 0 or a Cartesian input with Z == 0 (altitude = Z / sin(latitude))',
+    'C01-r3m2': 'two consecutive toECEF calls on one converter with identical latitude/longitude and different heights (member cache keyed on lat/lon)',
+    'C02-r3m1': 'anchor(A); reset(); toENU(P) with P at the latitude/longitude of A (shortcut in front of the auto-anchor test reads the stale anchor)',
+    'C02-r3m2': 'anchor on or near the antimeridian and a local point within metres of it (half-angle longitude formula cancels)',
+    'C03-r3m1': 'secant projection on a non-GRS80 ellipsoid with latitude0 neither 0 nor 90 deg (defaulted eccentricity argument)',
+    'C03-r3m2': 'the TangentProjectionParameters constructor on a non-spherical ellipsoid (aggregate return not extended: e = 0)',
+    'C04-r3m1': '2-D point type, correspondence-list overload and a rotation beyond +-pi/2 (closed form with atan)',
+    'C04-r3m2': 'small-magnitude but well-conditioned clouds: tiny preconditioning scale or tight cluster (cov.isZero() tolerance)',
+    'C05-r3m1': 'one estimator: setPreconditioner with scale s != 1, then with scale exactly 1, then find',
+    'C05-r3m2': 'aligned + preconditioned overload with scale != 1 (translation un-scaled twice)',
+    'C07-r3m1': 'same-size problems on one solver with J refilled through a reference taken before the first solve (cached JtJ flag)',
+    'C07-r3m2': 'weightedEstimate() with fractional weights (J^T W J instead of J^T W^2 J)',
+    'C09-r3m1': 'an odd neighbourhood size k (stride-2 covariance loop without a remainder step)',
+    'C09-r3m2': 'one estimator re-used on a point set at the same address and size with other coordinates (kd-tree cached by identity)',
+    'C10-r3m1': 'a float point of norm in [1e-6, 3.45e-4) (guard compares the squared norm with machine epsilon)',
+    'C10-r3m2': 'the SmartRotation3D(Vector3d) constructor (constant entries of the elementary tables left uninitialised)',
+    'C11-r3m1': 'a pose with pitch outside [-pi/2, pi/2] (cos computed as sqrt(1 - sin^2))',
+    'C11-r3m2': 'a correlated covariance with |cov_xy| < 1e-5 (near() is an absolute tolerance): treated as axis-aligned',
+    'C12-r3m1': 'init(a,b,c) with non-zero angles followed by init(0,0,0) on the same object',
+    'C12-r3m2': 'a singular positive semi-definite covariance (LLT of the covariance)',
+    'C13-r3m1': 'a lower bound that is an exact multiple of the resolution with an unlucky reciprocal (floor(l*inv) vs floor(l/res))',
+    'C13-r3m2': 'a copy of the mapping used after the source is destroyed (raw pointers into the source tables)',
+    'C14-r3m1': 'origin and end closer than one cell but in different cells',
+    'C14-r3m2': 'float instantiation, ~2000 cells per axis, shallow ray from a high-index cell (centre table filled by a running sum)',
+    'C15-r3m1': '3-D grid, negative Y translation and a non-default empty value (helper default argument)',
+    'C15-r3m2': '2-D grid and a translation of at least the grid size along an axis (offset reduced modulo n before blanking)',
+    'C16-r3m1': 'mixed-sign samples that are not multiples of the precision (running sum truncated instead of the sample)',
+    'C16-r3m2': 'OnlineVariance(precision) then setWindowSize(W) (windowSizeMinusOne_ not refreshed)',
+    'C17-r3m1': '1..W stamps, silence, then a heartbeat more than 0.5 s late before stamp W+1',
+    'C17-r3m2': 'jittered stream whose sum of W periods in ns is not a multiple of W (integer mean period)',
+    'C18-r3m1': 'CheckupGreaterThan with the value exactly on the minimum and epsilon 0 (verdict helper picks the message from the target)',
+    'C18-r3m2': 'two appended reports carrying the same info key with different values (operator[] overwrites; the statement does not say which side wins)',
+    'C19-r3m1': 'SharedVariable of an arithmetic type: load() without the mutex',
+    'C19-r3m2': 'a heartbeat between the two stores of the first update() of a fresh monitor (flag published before the stamp; no data race)',
+    'C20-r3m1': 'a Cartesian point type and a set whose largest side lies on the last axis',
+    'C20-r3m2': 'a proper rotation by a tiny non-zero angle (isIdentity() tolerance) of an elongated box',
     'C01-r2m1': 'any ellipsoidal height below 0 (quantifier goes to -11 km); altitude computed as a distance (hypot)',
     'C01-r2m2': 'rare inputs at |latitude| >= 57.3 deg for which the latitude iteration 2-cycles between adjacent doubles (EPSILON below one ulp): the call never returns',
     'C02-r2m1': 'anchor latitude exactly 0 and a local point with north coordinate 0 (altitude = Z / sin(latitude) is 0/0)',
